@@ -111,7 +111,15 @@ def make_violation(clause: str, r: Dict[str, Any], path: str) -> Dict[str, Any]:
             if x["id"] == s:
                 home = "gone" if x["ms"] else ("own" if x["rp"] != "none" else ("env" if len(x["ix"]) == 1 else "ps"))
                 cells.append(f"{x['k']}:{home}:{x['lv']}")
-    return {"props": [CLAUSE_PROP[clause]], "kind": clause, "step": r["seq"], "a": ev["a"], "en": ev["entry"],
+    props = [CLAUSE_PROP[clause]]
+    # a measurement that leaves the bookkeeping of the subsystems it touched broken also breaks
+    # "retires measured subsystems correctly ... all other subsystems remain fully usable"
+    if clause in ("OneHome", "IndexNamesHome", "MembersShareLevel", "NoDupNoEmpty", "BackPointers"):
+        if ev["a"] == "measure":
+            props.append("C05")
+        elif ev["a"] == "measure_POVM":
+            props.append("C09")
+    return {"props": props, "kind": clause, "step": r["seq"], "a": ev["a"], "en": ev["entry"],
             "g": None, "cell": ",".join(cells), "flags": {"sep": ev.get("sep"), "destr": ev.get("destr"), "res": ev["res"]},
             "detail": f"clause {clause} violated at line tid={r['tid']} seq={r['seq']} of {os.path.basename(path)}: "
                       f"{ev['a']}/{ev['entry']} addr={ev.get('addr')} res={ev['res']} {ev.get('exc', '')}",
